@@ -52,8 +52,27 @@ def _sites(spec):
     return np.array(pts), inner
 
 
+def _quad_cells(spec):
+    """Jittered square lattice: every interior vertex is a four-fold junction."""
+    nx, ny = spec["nx"], spec["ny"]
+    r = _rng(spec, "sites")
+    jit = min(spec.get("jitter", 0.2), 0.25)
+    vv = []
+    for j in range(ny + 1):
+        for i in range(nx + 1):
+            vv.append((i + (r.random() * 2 - 1) * jit, j + (r.random() * 2 - 1) * jit))
+    cells = []
+    for j in range(ny):
+        for i in range(nx):
+            a = j * (nx + 1) + i
+            cells.append([a, a + 1, a + nx + 2, a + nx + 1])
+    return np.array(vv), cells
+
+
 def _voronoi_cells(spec):
     """-> vor vertices (array), cell list [[vor vertex idx ccw]], adjacency via ridges."""
+    if spec.get("lattice") == "quad":
+        return _quad_cells(spec)
     pts, inner = _sites(spec)
     vor = Voronoi(pts)
     cells = []
@@ -317,6 +336,8 @@ def random_spec(rng, *, max_side=6, kmax=40, for_solver=False, frames=1, min_rid
                 "jitter": round(rng.uniform(0.05, 0.3), 3), "hex": rng.random() < 0.7}
         if min_ridge is not None:
             spec["min_ridge"] = min_ridge
+        elif rng.random() < 0.15:
+            spec["lattice"] = "quad"   # four-fold junctions
         n = nx * ny
         # sub-tissue mask
         mode = rng.choice(["full", "full", "grow", "grow", "holes", "bridge"]) if not for_solver else \
